@@ -3449,8 +3449,11 @@
                                          const unsigned_fast_type n,
                                                InputIteratorTemp  t)
     {
-      if(n <= static_cast<unsigned_fast_type>(UINT32_C(48)))
+      if(   (n <= static_cast<unsigned_fast_type>(UINT32_C(48)))
+         || (static_cast<unsigned_fast_type>(n % 2U) != static_cast<unsigned_fast_type>(0U)))
       {
+        // Schoolbook below the cutoff, and for odd limb counts, which
+        // cannot be split into two halves of n / 2 limbs.
         static_cast<void>(t);
 
         eval_multiply_n_by_n_to_2n(r, a, b, n);
